@@ -11,6 +11,11 @@ CHECKS = {
     text="A freezing node and a twin without freezer receive the same 17-block, five-epoch chain (transactions, an uncle, proposals, side-chain blocks at heights that become frozen); after every delivery a synchronous freeze pass runs and every getter the property names is compared for every block, transaction and live cell (store, snapshot, and after a restart). A child process is killed at every point of the first and second freeze pass (before each data write, between data and index write, before the fsync, before each database batch); the parent re-opens, compares the battery, runs the next pass (which must continue to the two-epoch threshold), extends the chain and compares again. Freeze policy (threshold, contiguity, monotonicity) is checked after every pass.",
     note="Trusted: flat world with 4-block epochs; process-crash model; answers about side-chain blocks at frozen heights are exempt; cell data is queried for live cells only.",
     design="DESIGN.md §5 C10"),
+ "C15": dict(engine="seq", category="exploration",
+    technique="small-scope exhaustive enumeration of value shapes (all vector lengths 0..2, all option/union arms, numeric extremes in every position) and of single-field / single-byte mutations, with round-trip, field-content and hash-commitment oracles",
+    text="243 transaction shapes, 81 block shapes, every script hash type x args size, every protocol union arm (27 messages) are pushed through: molecule strict/compatible decode and field-by-field rebuild; packed->JSON->text->JSON->packed and back; a field-by-field comparison of the JSON object with the packed fields it names (so a swap in both conversion directions is caught); hash laws under an 18-entry transaction mutation catalogue and a block mutation catalogue (tx hash ignores witnesses only, witness hash / transactions root / proposals hash / extra hash / block hash each change when they must, cached view hashes equal recomputation); and ~400k single-byte, header-word and truncation mutants of the encodings, where every mutant accepted by strict decoding must re-encode to itself.",
+    note="Small-scope hypothesis: vectors longer than 2-3 elements and interactions of several mutated fields are not enumerated. Values embedding a block with an extension are only decodable in compatible mode (by design) and are exempt from the strict/rebuild identities.",
+    design="DESIGN.md §5 C15"),
  "C17": dict(engine="seq", category="model_checking",
     technique="explicit-state search over operation histories on the real structures (orphan pool to the fixpoint of reachable states; in-flight table with step-wise refinement checks on the dumped state; header map with real sled backend vs BTreeMap; skip-list ancestor lookup vs parent walk)",
     text="Orphan pool: for every labelled forest of 5 blocks over two absent roots, all sequences of insert / remove_blocks_by_parent(any node) / clean_expired are explored until no new state appears, each return value and the leader set compared with a plain-map model. In-flight table: all sequences (depth 5 quick / 6 thorough) over 3 peers x 4 blocks with a faked clock; every operation is checked as a relation between the dumped pre- and post-state, and the statement's invariants on every state. Header map: every sequence of length <=5/6 of insert/get/contains/remove over 4 keys plus spill (limit 2 items, real sled backend) against a BTreeMap. Ancestor: every (from,to) pair on chains of 300/1024 headers and from 40-block branches at fork points, with and without the main-chain shortcut, against a parent walk.",
